@@ -1,6 +1,8 @@
 (* C08 -- Damaged/mismatched chunks and unreachable stores never masquerade as data.  Only statements here. *)
 From Coq Require Import ZArith List Bool String.
 From KV Require Import Base.Sx Base.Str Gen.Generated Model.Npy Model.StoreErr Proofs.NpyP Proofs.StoreErrP.
+From KV Require Import Model.Prune Model.LostMap Model.VfwDamage Proofs.VfwDamageP.
+From KV Require Proofs.C06P.
 Import ListNotations.
 Open Scope Z_scope.
 
@@ -221,3 +223,115 @@ Theorem C08_put_outcome_classified : forall base writes trunc evs f,
   end.
 Proof. exact put_outcome. Qed.
 Print Assumptions C08_put_outcome_classified.
+
+(* ==== damaged chunks loaded through ChunkStoreVisFlagsWeights / a v4 data set (Model/VfwDamage.v) ====
+   "... is reported as a missing chunk (and therefore flagged data_lost when loaded through a data set)".
+   ds is an NPY chunk store holding the four arrays of a data set, each with ITS OWN chunking (C06P.cfg_ok: positive
+   chunks, the arrays agree on the length of every axis they have, a non-empty normalised preselection, p an element
+   of the window); [files a id] are the bytes under the name of chunk (array a, start coordinates id), [cover ds a p]
+   is the stored chunk of array a that covers element p.  file_damaged = absent, or the first k bytes (ANY k, 0
+   included) of a well-formed chunk file; file_healthy = a complete well-formed file of the promised dtype/shape.
+   Whatever the four chunkings are (same block counts with shifted boundaries included):
+   - an element covered by a damaged vis chunk is zero AND carries data_lost;
+   - an element covered by a damaged weights or weights_channel chunk has weight zero AND carries data_lost;
+   - an element covered by a damaged flags chunk carries data_lost and no other flag;
+   - an element all of whose four covering chunks are healthy comes back as stored, flags unchanged (no spurious
+     data_lost: the flagged elements are EXACTLY those of the damaged chunks). *)
+Theorem C08_damaged_chunk_zero_filled_and_flagged :
+  forall (parse_hdr : bytes -> option hdr) (print_hdr : hdr -> bytes),
+  (forall m, parse_hdr (print_hdr m) = Some m) ->
+  forall ds files wants p,
+  npy_backed parse_hdr ds files wants -> C06P.cfg_ok (cfg_of_dstore ds) p ->
+  (file_damaged print_hdr (files A_VIS (cover ds A_VIS p)) ->
+     dmg_vis ds p = 0 /\ Z.testbit (dmg_flags ds p) 3 = true) /\
+  (file_damaged print_hdr (files A_W (cover ds A_W p)) \/ file_damaged print_hdr (files A_WC (cover ds A_WC p)) ->
+     dmg_weights ds p = 0 /\ Z.testbit (dmg_flags ds p) 3 = true) /\
+  (file_damaged print_hdr (files A_FLAGS (cover ds A_FLAGS p)) ->
+     Z.testbit (dmg_flags ds p) 3 = true /\ forall i, 0 <= i -> i <> 3 -> Z.testbit (dmg_flags ds p) i = false) /\
+  ((forall a, In a arrays4 -> file_healthy print_hdr (files a (cover ds a p)) (wants a (cover ds a p))) ->
+     dmg_vis ds p = stored_at ds A_VIS p /\ dmg_weights ds p = stored_at ds A_W p * stored_at ds A_WC p /\
+     dmg_flags ds p = stored_at ds A_FLAGS p).
+Proof. exact damaged_chunk_zero_filled_and_flagged. Qed.
+Print Assumptions C08_damaged_chunk_zero_filled_and_flagged.
+
+(* the same for ANY back-end and ANY low-level behaviour, in terms of what the getter selected by vis_flags_weights
+   answers for the chunk: zero / data_lost exactly where that getter returned filler *)
+Theorem C08_loaded_values_follow_the_getters : forall ds p, C06P.cfg_ok (cfg_of_dstore ds) p ->
+  dmg_vis ds p = (if chunk_missing ds A_VIS (cover ds A_VIS p) then 0 else stored_at ds A_VIS p) /\
+  dmg_weights ds p = (if chunk_missing ds A_W (cover ds A_W p) || chunk_missing ds A_WC (cover ds A_WC p) then 0
+                      else stored_at ds A_W p * stored_at ds A_WC p) /\
+  dmg_flags ds p =
+    Z.lor (if chunk_missing ds A_FLAGS (cover ds A_FLAGS p) then DATA_LOST else stored_at ds A_FLAGS p)
+          (if chunk_missing ds A_VIS (cover ds A_VIS p) || chunk_missing ds A_W (cover ds A_W p)
+              || chunk_missing ds A_WC (cover ds A_WC p) then DATA_LOST else 0).
+Proof. exact dmg_values. Qed.
+Print Assumptions C08_loaded_values_follow_the_getters.
+
+(* filler is answered only for a low-level raise that the store's error map turns into a ChunkNotFound: a chunk that
+   decodes is never zero-filled, whatever its dtype/shape *)
+Theorem C08_filler_only_for_notfound : forall k s lo v, vfw_getter k s lo = Ret v -> is_filler v = true ->
+  exists e, lo = LRaise e /\ isinst (standard_errors (error_map s) e) K_ChunkNotFound = true.
+Proof. exact getter_filler_only_if_raised. Qed.
+Print Assumptions C08_filler_only_for_notfound.
+
+(* S3: an object cut at any offset (whole-object Content-Length) or a 404 is filler for both getters *)
+Theorem C08_s3_damaged_object_is_filler :
+  forall (parse_hdr : bytes -> option hdr) (print_hdr : hdr -> bytes),
+  (forall m, parse_hdr (print_hdr m) = Some m) ->
+  forall k major nb m body n want, wf_file print_hdr major nb m body ->
+  existsb (Z.eqb major) [1; 2] = true -> (n < List.length (encode print_hdr major nb m body))%nat ->
+  (exists v, vfw_getter k SS3 (low_of_object parse_hdr (Some (firstn n (encode print_hdr major nb m body))) want) = Ret v
+             /\ is_filler v = true) /\
+  (exists v, vfw_getter k SS3 (low_of_object parse_hdr None want) = Ret v /\ is_filler v = true).
+Proof. exact s3_damaged_is_filler. Qed.
+Print Assumptions C08_s3_damaged_object_is_filler.
+
+(* the load as a whole: damage alone never fails it; a decodable chunk of the wrong dtype/shape covering ANY element
+   of the preselected window fails it with BadChunk (never zero-filled); an exception out of a load is never a
+   ChunkNotFound; the chunk covering an element of the window is always among the chunks the load asks for *)
+Theorem C08_damaged_store_loads :
+  forall (parse_hdr : bytes -> option hdr) (print_hdr : hdr -> bytes),
+  (forall m, parse_hdr (print_hdr m) = Some m) ->
+  forall ds files wants, npy_backed parse_hdr ds files wants ->
+  (forall a id, In (a, id) (needed ds) ->
+     file_damaged print_hdr (files a id) \/ file_healthy print_hdr (files a id) (wants a id)) ->
+  load_errors ds = [].
+Proof. exact damaged_store_loads. Qed.
+Print Assumptions C08_damaged_store_loads.
+
+Theorem C08_mismatched_chunk_fails_load :
+  forall (parse_hdr : bytes -> option hdr) (print_hdr : hdr -> bytes),
+  (forall m, parse_hdr (print_hdr m) = Some m) ->
+  forall ds files wants p a, npy_backed parse_hdr ds files wants ->
+  C06P.cfg_ok (cfg_of_dstore ds) p -> In a arrays4 ->
+  file_mismatched print_hdr (files a (cover ds a p)) (wants a (cover ds a p)) ->
+  In K_BadChunk (load_errors ds) /\ load_errors ds <> [].
+Proof. exact mismatched_chunk_fails_load. Qed.
+Print Assumptions C08_mismatched_chunk_fails_load.
+
+Theorem C08_load_errors_classified : forall ds,
+  (forall e, In e (load_errors ds) <-> exists a id, In (a, id) (needed ds) /\ chunk_outcome ds a id = Raise e) /\
+  (forall e, In e (load_errors ds) -> isinst e K_ChunkNotFound = false) /\
+  (forall p a, C06P.cfg_ok (cfg_of_dstore ds) p -> In a arrays4 -> In (a, cover ds a p) (needed ds)).
+Proof.
+  intro ds. split; [exact (load_error_iff ds)|]. split; [exact (load_error_not_notfound ds)|].
+  intros p a. exact (covering_chunk_is_needed ds p a).
+Qed.
+Print Assumptions C08_load_errors_classified.
+
+(* the lost-map section, the zero-fill loop, _apply_data_lost and _default_zero of the CURRENT vis_flags_weights.py
+   are, statement by statement, the code the model was written against (translated source lines) *)
+Theorem C08_vfw_source_is_modelled : lostmap_is_modelled = true /\ fill_is_modelled = true.
+Proof. exact src_is_modelled. Qed.
+Print Assumptions C08_vfw_source_is_modelled.
+
+(* non-vacuity / teeth: vis time chunks (3,1) against flags time chunks (2,2) (same block counts, shifted boundary),
+   vis chunk 0 cut to 3 bytes: dumps 0..2 are zero and flagged -- dump 2 lies in the OTHER flags chunk -- dump 3 is not *)
+Theorem C08_shifted_boundaries_example :
+  (forall t f, In t [0; 1; 2; 3] -> In f [0; 1] -> C06P.cfg_ok (cfg_of_dstore ex_ds) [t; f; 0]) /\
+  load_errors ex_ds = [] /\
+  map (dmg_vis ex_ds) [[0; 0; 0]; [1; 0; 0]; [2; 0; 0]; [3; 0; 0]] = [0; 0; 0; 17] /\
+  map (dmg_flags ex_ds) [[0; 0; 0]; [1; 0; 0]; [2; 0; 0]; [3; 0; 0]] = [9; 11; 13; 7] /\
+  map (dmg_weights ex_ds) [[0; 0; 0]; [1; 0; 0]; [2; 0; 0]; [3; 0; 0]] = [2; 2; 2; 2].
+Proof. exact (conj ex_ds_ok ex_ds_values). Qed.
+Print Assumptions C08_shifted_boundaries_example.
